@@ -483,4 +483,23 @@ example : ((run ⟨false, true, false⟩ [] (opsOf
       (fun c => c.isOpen && c.st == .normal)).map (fun c => (c.id, c.reverse)) = [(1, false)] := by
   decide
 
+/-! ## The model's conditions are the source's conditions
+
+`exclusiveGen`, `otherRefuseGen`, `otherCloseGen` are translated from the text of the policy block
+of rfbProcessClientInitMessage on every run (tools/consts/c14.py, which also compares the rest of
+the block literally).  A change of any of the three conditions in the C source changes these
+definitions and breaks the equalities below, whether or not a generated history reaches it. -/
+
+theorem exclusive_matches_source (cfg : Cfg) (c : Client) (shared : Bool) :
+    exclusive cfg c shared = exclusiveGen c.reverse cfg.never cfg.always shared := by
+  cases c with | mk id st rev o => cases cfg with | mk a n d =>
+  cases rev <;> cases n <;> cases a <;> cases shared <;> rfl
+
+/-- the iterator yields only open clients; among those both loops pick by the translated condition -/
+theorem other_matches_source (i : Nat) (c : Client) :
+    isOtherNormal i c = (c.isOpen && otherRefuseGen (c.id != i) (c.st == .normal)) ∧
+    isOtherNormal i c = (c.isOpen && otherCloseGen (c.id != i) (c.st == .normal)) := by
+  simp only [isOtherNormal, otherRefuseGen, otherCloseGen]
+  constructor <;> cases (c.id != i) <;> cases c.isOpen <;> cases (c.st == St.normal) <;> rfl
+
 end VncModel.Props.C14
